@@ -149,7 +149,14 @@ class AsyncioEventLoop(EventLoop):
         seconds -- time in seconds to wait before calling callback
         callback -- function to call from event loop
         """
-        return self._loop.call_later(seconds, self._also_call_idle(callback))
+
+        def fire() -> None:
+            # an alarm that fires no longer exists for remove_alarm()
+            handle.cancel()
+            callback()
+
+        handle = self._loop.call_later(seconds, self._also_call_idle(fire))
+        return handle
 
     def remove_alarm(self, handle) -> bool:
         """
